@@ -57,7 +57,7 @@ SPEC = dict(
          'distinct_nontrivial = distinct (container kind, operation, element-size class, index class(es), capacity state) combinations judged, plus for the large class '
          '(kind, operation, element-size class, floor(log2 count), operation class).',
     exhaustive={},
-    require=['arena-state-compared-with-model', 'arena-non-owned-bytes-verified', 'arena-caller-operand-unchanged', 'arena-operand-directly-behind-storage', 'arena-operand-directly-in-front',
+    require=['sort-against-an-adversary-comparator', 'sort-of-the-arrangement-the-adversary-arrived-at', 'arena-state-compared-with-model', 'arena-non-owned-bytes-verified', 'arena-caller-operand-unchanged', 'arena-operand-directly-behind-storage', 'arena-operand-directly-in-front',
              'arena-operand-one-element-behind-storage', 'arena-operand-one-element-in-front', 'arena-operand-in-released-former-block', 'arena-growth-moved-block-with-adjacent-operand',
              'arena-growth-in-place', 'arena-push_sort-exactly-full-key-directly-behind', 'arena-push_sort-moved-block-with-adjacent-key', 'arena-store-growth-with-adjacent-source',
              'arena-push-moved-block-with-adjacent-element-source', 'arena-search-finds-iff-present', 'arena-sorted-insert-keeps-order-and-elements', 'arena-buf-refuses-when-full',
